@@ -13,7 +13,7 @@ from props import c04, c05
 
 ID = "C11"
 LEVEL = "exploration"
-BUDGET = {"quick": (8, 45), "thorough": (16, 700)}
+BUDGET = {"quick": (8, 45), "thorough": (16, 1500)}
 K = 3
 RULE = ("Generated OCP (all sampling methods, N, M, degree, grids incl. localized and FreeGrid, time-dependent dynamics, objective terms and constraints mentioning t, T, t0, tf) declared twice: "
         "with fixed numbers (c0, c) and with FreeTime(guess) for T, t0 or both (or a user variable through set_T). A random decision vector of the fixed problem is transported to the free one "
